@@ -9,6 +9,7 @@ families (SortGen/SortCases), the rebuilt binary runs every case and SortObs jud
 Python here only spells command lines / DSL texts from the abstract cases and splits printed text back into the
 abstract form; it never sorts or compares values."""
 import json
+import os
 import time
 from concurrent.futures import ThreadPoolExecutor
 
@@ -112,7 +113,8 @@ def batch_flags(k):
 def run(tier, seed):
     t0 = time.time()
     V = vlib.Verdicts(PROP)
-    mlr = vlib.build_mlr()
+    # VERIF_C09_MLR: judge a prebuilt binary instead (used to try the check on mutants without touching /verif/build)
+    mlr = os.environ.get("VERIF_C09_MLR") or vlib.build_mlr()
     vlib.build_harness("runner", tags="")
     thorough = tier == "thorough"
     bounds = BOUNDS["thorough" if thorough else "quick"]
@@ -144,13 +146,15 @@ def run(tier, seed):
             cfg = {"keys": c["keys"], "flags": c["flags"], "b": c["b"]}
             runs.append({"argv": [mlr] + batch_flags(k) + sort_argv(c, k), "stdin": b3.dkvp(c["s"]), "timeout_ms": 10000})
             slots.append(("stream", len(obs)))
-            obs.append({"fam": "sort", "sub": fam, "c": cfg, "s": c["s"]})
+            obs.append({"fam": "sort", "sub": fam, "c": cfg, "s": c["s"],
+                        "cmd": {"argv": runs[-1]["argv"][1:], "stdin": runs[-1]["stdin"]}})
             k += 1
     for c in fams["top"]:
         argv = ["top", "-n", str(c["n"]), "-f", "x", "-a"] + (["--min"] if c["min"] else [])
         runs.append({"argv": [mlr] + batch_flags(k) + argv, "stdin": b3.dkvp(c["s"]), "timeout_ms": 10000})
         slots.append(("stream", len(obs)))
-        obs.append({"fam": "top", "sub": "top", "c": {"n": c["n"], "min": c["min"]}, "s": c["s"]})
+        obs.append({"fam": "top", "sub": "top", "c": {"n": c["n"], "min": c["min"]}, "s": c["s"],
+                    "cmd": {"argv": runs[-1]["argv"][1:], "stdin": runs[-1]["stdin"]}})
         k += 1
     # sort-within-records: one process per option, one record per case
     by_opt = {}
@@ -160,7 +164,8 @@ def run(tier, seed):
         idx = []
         for c in cs:
             idx.append(len(obs))
-            obs.append({"fam": "swr", "sub": "swr", "o": o, "r": c["r"]})
+            obs.append({"fam": "swr", "sub": "swr", "o": o, "r": c["r"],
+                        "cmd": {"argv": ["sort-within-records"] + ([o] if o else []), "stdin": b3.dkvp([c["r"]])}})
         runs.append({"argv": [mlr, "sort-within-records"] + ([o] if o else []), "stdin": b3.dkvp([c["r"] for c in cs]),
                      "timeout_ms": 60000, "max_out": 1 << 28})
         slots.append(("lines", idx))
@@ -177,8 +182,9 @@ def run(tier, seed):
         for n, (c, fields, fam) in enumerate(members):
             idx.append(len(obs))
             cfg = {"fn": c["fn"], "coll": c["coll"], "how": c["how"], "flags": c["flags"], "lam": c["lam"]}
-            obs.append({"fam": "fn", "sub": fam, "c": cfg, "in": c["in"]})
             lines.append(",".join(["id=%d" % n] + ["%s=%s" % kv for kv in fields]))
+            obs.append({"fam": "fn", "sub": fam, "c": cfg, "in": c["in"],
+                        "cmd": {"argv": ["put", "-q", dsl], "stdin": lines[-1] + "\n"}})
         runs.append({"argv": [mlr, "put", "-q", dsl], "stdin": "\n".join(lines) + "\n", "timeout_ms": 120000,
                      "max_out": 1 << 28})
         slots.append(("ids", idx))
@@ -227,7 +233,7 @@ def run(tier, seed):
         else:
             key.update({"fn": o["c"]["fn"], "coll": o["c"]["coll"], "how": o["c"]["how"],
                         "flags": "".join(o["c"]["flags"]), "lam": o["c"]["lam"]})
-        V.violation(key, {"case": slim(o), "stderr": o.get("stderr", "")})
+        V.violation(key, {"case": slim(o), "cmd": o["cmd"], "stderr": o.get("stderr", "")})
 
     vlib.log("[c09] %.0fs: judged, %d non-conforming" % (time.time() - t0, len(bad)))
     # for information: valid but not stable (the help text's stronger claim), on the big streams
@@ -297,7 +303,15 @@ def run(tier, seed):
 
 
 def replay(path):
+    """Re-runs the command of a violation file on the rebuilt binary and prints what it prints now."""
     with open(path) as f:
         v = json.load(f)
-    print(json.dumps(v, indent=1))
+    print(json.dumps(v["key"], indent=1))
+    print("case:", json.dumps(v["detail"]["case"]))
+    cmd = v["detail"]["cmd"]
+    mlr = os.environ.get("VERIF_C09_MLR") or vlib.build_mlr()
+    p = vlib.sh([mlr] + cmd["argv"], input=cmd["stdin"], check=False, timeout=60)
+    print("$ mlr %s   <<< %r" % (" ".join(repr(a) for a in cmd["argv"]), cmd["stdin"]))
+    print(p.stdout, end="")
+    print("exit %d %s" % (p.returncode, p.stderr[:300]))
     return 0
